@@ -46,7 +46,7 @@ func HarnessC20MetricsPublisher() {
 		vrt.Assert(err == nil, "decorated twice (collector reused)")
 		pub = p2
 	}
-	n := vrt.Int("calls", 1, 2)
+	n := vrt.Int("calls", 1, vrt.Bound("maxcalls", 2))
 	for i := 0; i < n; i++ {
 		err := pub.Publish("t", message.NewMessage("m", nil))
 		vrt.Assert((err != nil) == inner.fail, "the inner result passes through")
